@@ -283,13 +283,13 @@ RN = "torchphysics.problem.spaces.space.Rn"
 
 class BatchFamily:
     """an arbitrary data loader: M >= 0 batches; batch i has NR(i) >= 1 rows, inputs FX(i, r, c) in the space t*x and
-    targets FY(i, r) in the space u (contract of iterating a DataLoader once, A5: every batch exactly once, in order)"""
+    targets FY(i, r, c) in the two-dimensional space u (contract of iterating a DataLoader once, A5: every batch exactly once, in order)"""
 
     def __init__(self, S, M):
         self.S, self.M = S, M
         self.NR = z3.Function("batch_rows", z3.IntSort(), z3.IntSort())
         self.FX = z3.Function("batch_x", z3.IntSort(), z3.IntSort(), z3.IntSort(), z3.RealSort())
-        self.FY = z3.Function("batch_y", z3.IntSort(), z3.IntSort(), z3.RealSort())
+        self.FY = z3.Function("batch_y", z3.IntSort(), z3.IntSort(), z3.IntSort(), z3.RealSort())
 
     def tpv_len(self, I):
         return self.M
@@ -305,16 +305,18 @@ class BatchFamily:
         n = self.NR(iz)
         I.ctx.assume(n >= 1)
         X = Tensor(STensor([Dim([n]), Dim([3])], lambda idx: self.FX(iz, zint(idx[0][0]), zint(idx[1][0])), "real"))
-        Y = Tensor(STensor([Dim([n]), Dim([])], lambda idx: self.FY(iz, zint(idx[0][0])), "real"))
+        Y = Tensor(STensor([Dim([n]), Dim([2])], lambda idx: self.FY(iz, zint(idx[0][0]), zint(idx[1][0])), "real"))
         tx = S.I.binop(ast.Mult(), S.new(RN, "t", 1), S.new(RN, "x", 2))
-        return (S.new(POINTS, X, tx), S.new(POINTS, Y, S.new(RN, "u", 1)))
+        return (S.new(POINTS, X, tx), S.new(POINTS, Y, S.new(RN, "u", 2)))
 
 
+@scenario("C04", [COND + ".forward", COND + "._compute_dist"], configs=["2", "inf"], name="data_condition_on_the_full_data_set_aggregates_every_batch_once")
 @scenario("C16", [COND + ".forward", COND + "._compute_dist"], configs=["2", "inf"])
 def data_condition_on_the_full_data_set_aggregates_every_batch_once(S):
     """DataCondition(use_full_dataset=True).forward over an ARBITRARY loader with a symbolic number M of batches of
     symbolic sizes (inductive loop contract).  Spec functions: Acc(0) = 0 and
-      norm p  : Acc(i+1) = Acc(i) + mean(|net(x_i) - y_i| ** p) / M        (mean of the per-batch means)
+      norm p  : Acc(i+1) = Acc(i) + mean(|net(x_i) - y_i| ** p) / M        (mean of the per-batch means; the per-batch
+                                                                            mean runs over ALL entries: rows x components)
       norm inf: Acc(i+1) = max(Acc(i), max |net(x_i) - y_i|)               (maximum)
     post: the loss is Acc(M) (root 1); inside the loop every batch is used exactly once, its distance tensor is
     |model(x) - y| row by row with the inputs bound by name, and the model is evaluated once per batch."""
@@ -322,13 +324,13 @@ def data_condition_on_the_full_data_set_aggregates_every_batch_once(S):
     from tpv.tlib import Tensor
     from tpv.core import STensor, Dim, zreal
     from tpv.absdom import AbstractModel
-    from tpv import torchlib, tlib
+    from tpv import torchlib, tlib, core
 
     I = S.I
     M = S.int("M", 0)
     fam = BatchFamily(S, M)
     tx = I.binop(ast.Mult(), S.new(RN, "x", 2), S.new(RN, "t", 1))
-    model = AbstractModel(S, "net", tx, S.new(RN, "u", 1))
+    model = AbstractModel(S, "net", tx, S.new(RN, "u", 2))
     norm = 2 if S.cfg == "2" else "inf"
     cond = S.new(COND, model.obj, fam, norm, use_full_dataset=True)
     Acc = z3.Function("Acc", z3.IntSort(), z3.RealSort())
@@ -361,7 +363,8 @@ def data_condition_on_the_full_data_set_aggregates_every_batch_once(S):
         a = probe[0]
         prev = z3.simplify(zint(i) - 1)
         S.forall(f"batch-loop/{tag}:distance-is-abs-model-minus-target-of-this-batch-by-name", Tensor(a),
-                 lambda q: zreal(a.at(q)) == (lambda d: z3.If(d >= 0, d, -d))(model.out_terms([fam.FX(prev, zint(q[0][0]), z3.IntVal(1)), fam.FX(prev, zint(q[0][0]), z3.IntVal(2)), fam.FX(prev, zint(q[0][0]), z3.IntVal(0))])[0] - fam.FY(prev, zint(q[0][0]))), kind="inv")
+                 lambda q: zreal(a.at(q)) == (lambda d: z3.If(d >= 0, d, -d))(core.select_comp(q[1][0], 2, [(lambda c=c: model.out_terms([fam.FX(prev, zint(q[0][0]), z3.IntVal(1)), fam.FX(prev, zint(q[0][0]), z3.IntVal(2)), fam.FX(prev, zint(q[0][0]), z3.IntVal(0))])[c]) for c in range(2)]) - fam.FY(prev, zint(q[0][0]), zint(q[1][0]))), kind="inv")
+        S.ensure(f"batch-loop/{tag}:distance-has-one-entry-per-row-and-component", a.rank == 2 and a.shape[1].concrete() == 2, kind="inv")
         S.ensure(f"batch-loop/{tag}:all-rows-of-the-batch-used", a.shape[0].size_term() == fam.NR(prev), kind="inv")
         if norm == 2:
             want = torchlib.t_mean(I_, tlib.power(I_, Tensor(a), 2)).val.at([])
